@@ -115,6 +115,13 @@ Theorem C08_sys_no_foreign_reply : forall c0, in_i32 c0 -> forall nt na ls s, sr
   forall a' k' c' p', call_at s a' k' c' p' -> active c' = true -> (a' <> a \/ k' <> k) -> c_id c' <> p_id pk.
 Proof. exact (C08SysProofs.sys_no_foreign_reply maxi eq_refl). Qed.
 
+(* the generator discharges the hypothesis [good_run] of C08_own_entry / C08_outstanding_distinct: whenever a thread
+   registers a call, the id is non-zero and (young calls) no outstanding call on any adapter of the process holds it *)
+Theorem C08_sys_registration_good : forall c0, in_i32 c0 -> forall nt na ls s t a ow s',
+  srun maxi (sinit c0 nt na) ls = Some s -> sstep maxi s (SReg t a ow) = Some s' -> all_young s' ->
+  exists v, nth_error (pcs (gen s)) t = Some (TDone v) /\ mgoodb (ads s) (a, LRegister v ow) = true.
+Proof. exact (C08SysProofs.sys_registration_good maxi eq_refl). Qed.
+
 (* [all_young] holds in particular while the process has performed fewer than 2^31-1 allocations in all *)
 Theorem C08_sys_young_if_few : forall s, Z.of_nat (allocs s) < 2147483648 - 1 -> all_young s.
 Proof. exact C08SysProofs.young_if_few. Qed.
@@ -136,4 +143,5 @@ Print Assumptions C08_sys_ids_nonzero.
 Print Assumptions C08_sys_shared_id_far.
 Print Assumptions C08_sys_outstanding_distinct.
 Print Assumptions C08_sys_no_foreign_reply.
+Print Assumptions C08_sys_registration_good.
 Print Assumptions C08_sys_young_if_few.
